@@ -9,7 +9,7 @@ git -C $S/repo checkout -q -- .
 git -C $S/repo checkout -q --detach "$(git -C /repo rev-parse HEAD)"
 rsync -a --delete --exclude target /verif/harness/ $S/harness/
 sed -i "s#path = \"/repo\"#path = \"$S/repo\"#" $S/harness/Cargo.toml
-git -C $S/repo apply "$1"
+git -C $S/repo apply "$(realpath "$1")"
 set +e
 cd /verif
 VERIF_HARNESS=$S/harness ./check "$2" "${3:-quick}"
